@@ -10,6 +10,7 @@ import (
 	"strconv"
 	"strings"
 	"testing"
+	"time"
 
 	"bngverif/internal/vstat"
 )
@@ -126,6 +127,91 @@ func TestReplaySanity(t *testing.T) {
 		pppoePrelude(s, st)
 		if got := pppoeStateName(s); got != want {
 			t.Fatalf("INCONCLUSIVE: harness self-check: PPPoE prelude %d reached %q, want %q", st, got, want)
+		}
+	}
+	// generated histories: every automaton state is reached by every route for most shapes, the server histories
+	// reach the session states they are asked for, the DHCP histories bind / expire leases
+	for _, kind := range []string{"lcp", "ipcp", "ipv6cp"} {
+		for si, want := range fsmStates {
+			for route := 0; route < 3; route++ {
+				hit, n := 0, 0
+				for k := 0; k < 48; k++ {
+					h := vstat.Hash("sanity", kind, want, route, k)
+					sh := negShape{byte(1 + route), byte(h), byte(h >> 8), byte(h >> 16), byte(h>>24) &^ 0x40, byte(h >> 32)}
+					f := newFSM(kind, byte(h>>40)&3)
+					var st negStats
+					f.reach(want, sh, &st)
+					if f.state() == want {
+						hit++
+					}
+					n++
+					f.down()
+				}
+				if hit*4 < n*3 {
+					t.Fatalf("INCONCLUSIVE: harness self-check: %s generated prefix (route %s) reached %s in only %d of %d shapes", kind, routeNames[route], fsmStates[si], hit, n)
+				}
+			}
+		}
+	}
+	for st := 1; st <= 4; st++ {
+		for k := 0; k < 32; k++ {
+			h := vstat.Hash("sanity-srv", st, k)
+			sh := srvShape{1, byte(h) &^ 0x80, byte(h >> 8), byte(h >> 16), byte(h>>24) & 0x3f, byte(h >> 32)}
+			s := newPPPoEServerCfg(false)
+			var c caseInfo
+			srvHistory(s, st, sh, &c)
+			if got := pppoeStateName(s); got != wantSrv[st] {
+				t.Fatalf("INCONCLUSIVE: harness self-check: generated PPPoE history %+v for state %d reached %q, want %q", sh, st, got, wantSrv[st])
+			}
+		}
+	}
+	{
+		var c caseInfo
+		s, conn := newDHCP4Cfg(false, time.Hour)
+		dhcp4History(s, conn, d4Shape{2<<5 | 2<<1, 1}, time.Hour, &c) // relayed with option 82, bound, one other client
+		if s.VerifC09LeaseCount() != 2 {
+			t.Fatalf("INCONCLUSIVE: harness self-check: generated DHCPv4 history left %d leases, want 2 (%v)", s.VerifC09LeaseCount(), c.cls)
+		}
+		left := -1
+		inBubble(func() {
+			s, conn := newDHCP4Cfg(false, time.Hour)
+			dhcp4History(s, conn, d4Shape{2 << 5, 3 << 3}, time.Hour, &c) // bound, lease time passes, clean-up tick
+			left = s.VerifC09LeaseCount()
+		})
+		if left != 0 {
+			t.Fatalf("INCONCLUSIVE: harness self-check: expired DHCPv4 lease survived the clean-up tick")
+		}
+		s6 := newDHCP6Cfg(0, false)
+		dhcp6History(s6, d6Shape{0, 1 << 3}, 7200*time.Second, &c) // address + prefix, bound, one other client
+		if s6.VerifC09LeaseCount() != 2 {
+			t.Fatalf("INCONCLUSIVE: harness self-check: generated DHCPv6 history left %d leases, want 2 (%v)", s6.VerifC09LeaseCount(), c.cls)
+		}
+		inBubble(func() {
+			s6 := newDHCP6Cfg(0, false)
+			dhcp6History(s6, d6Shape{0, 3}, 7200*time.Second, &c) // bound, valid lifetime passes, a stranger's message
+			left = s6.VerifC09LeaseCount()
+		})
+		if left != 0 {
+			t.Fatalf("INCONCLUSIVE: harness self-check: expired DHCPv6 lease survived the scan")
+		}
+	}
+	for tn := range repoPackets {
+		if targets[tn] == nil {
+			t.Fatalf("INCONCLUSIVE: harness self-check: repoPackets names unknown target %q", tn)
+		}
+	}
+	for fn, tn := range fuzzTargets {
+		if targets[tn] == nil {
+			t.Fatalf("INCONCLUSIVE: harness self-check: %s names unknown target %q", fn, tn)
+		}
+	}
+	for _, tn := range targetNames() {
+		found := false
+		for _, v := range fuzzTargets {
+			found = found || v == tn
+		}
+		if !found {
+			t.Fatalf("INCONCLUSIVE: harness self-check: target %q has no Fuzz function", tn)
 		}
 	}
 	for sel := byte(1); sel <= 2; sel++ {
